@@ -23,7 +23,8 @@ Full statement aimed at (kept visible; what is proved of it is listed below):
   tokens; `rr_line_*`, `ttl_take_*` — owner / TTL / class inheritance of the line machine;
   `parse_render_partial` — end to end for files of the stated shape.
 -/
-import HickoryVerif.Lemmas.ZoneParseFile
+import HickoryVerif.Lemmas.ZoneParseStore
+import HickoryVerif.Lemmas.ZoneParseName
 
 namespace HickoryVerif.C20
 open HickoryVerif HickoryVerif.ZoneLex HickoryVerif.ZoneParse HickoryVerif.Spec.MasterFile
@@ -329,5 +330,78 @@ theorem good_group_loads :
       32, 119, 111, 114, 108, 100, 32, 41, 10] (some exampleCom)) =
       some [[[104, 101, 108, 108, 111], [119, 111, 114, 108, 100]]] :=
   observe_of_fuel (n := 80) (by decide +kernel)
+
+end HickoryVerif.C20
+
+namespace HickoryVerif.C20
+open HickoryVerif HickoryVerif.ZoneLex HickoryVerif.ZoneParse HickoryVerif.Spec.MasterFile
+
+/-! ## exactly those records; names; character strings -/
+
+/-- **A rendered file loads to exactly the records it states** — one singleton record set per
+stated record, in file order, and the origin the reader ends with — when, in addition to the
+hypotheses of `parse_render_partial`, every stated record has RDATA that `from_tokens` accepts
+(`mapM setOf = some …`) and the stated records have pairwise distinct (owner, type).
+(Several records per RRset go through `RecordSet::insert`, which is modelled and validated by the
+correspondence run but not characterised by a theorem.) -/
+theorem loads_exactly_partial (o o' : Name) (ls : List SLine) (st' : RState) (es : List Entry)
+    (sets : List (Key × RSet))
+    (hlex : File.ok (ls.map SLine.line) = true)
+    (hread : readFile { origin := some { o with fqdn := true } } ls = some (st', es))
+    (hnames : FileNamesOK { origin := some { o with fqdn := true } } ls)
+    (hsets : es.mapM setOf = some sets) (hnd : (sets.map Prod.fst).Nodup)
+    (ho : st'.origin = some o') :
+    parse (render (ls.map SLine.line)) (some o) = .ok (o', sets) := by
+  rw [parse_render_partial o ls st' es hlex hread hnames,
+    storeAll_distinct es [] sets hsets (by simpa using hnd)]
+  simp [ho]
+
+/-- the sample zone of above, through the theorem: two record sets, `www TXT "a" "b" "c d"` with
+the `$TTL` and `www A 1.2.3.4` with its own TTL and the inherited owner -/
+example : parse (render (sampleZone.map SLine.line)) (some exampleCom) =
+    .ok (exampleCom,
+      [ (keyOf nWWW .txt, RSet.ofRec .txt ⟨nWWW, 1, 300, .txt [[97], [98], [99, 32, 100]]⟩),
+        (keyOf nWWW .a, RSet.ofRec .a ⟨nWWW, 1, 60, .a [1, 2, 3, 4]⟩) ]) := by
+  exact loads_exactly_partial exampleCom exampleCom sampleZone
+    { origin := some exampleCom, owner := some nWWW, dflt := some 300, lastTtl := some 60 }
+    [ { owner := nWWW, cls := 1, ttl := 300, typ := 16, origin := some exampleCom, rdata := [[97], [98], [99, 32, 100]] },
+      { owner := nWWW, cls := 1, ttl := 60, typ := 1, origin := some exampleCom, rdata := [[49, 46, 50, 46, 51, 46, 52]] } ]
+    _ (by decide) (by decide) (by unfold FileNamesOK; decide) (by decide) (by decide) rfl
+
+/-- **An absolute host-style name, written label by label with dots, parses to exactly that
+name**: discharges `FileNamesOK` for such owners and `$ORIGIN` arguments. -/
+theorem name_absolute (ls : List (List Nat)) (o : Option Name) (hne : ls ≠ [])
+    (hl : ls.all hostLabel = true) (hlen : labelsLen ls + 1 ≤ 255) :
+    parseName (dotted ls) o = .ok { labels := ls, fqdn := true } :=
+  parseName_host ls o hne hl hlen
+
+/-- **A relative host-style name denotes its labels followed by the origin's.** -/
+theorem name_relative (init : List (List Nat)) (last : List Nat) (o : Name)
+    (hl : (init ++ [last]).all hostLabel = true)
+    (hlen : labelsLen (init ++ [last]) + labelsLen o.labels + 1 ≤ 255) :
+    parseName (dotted init ++ last) (some o) = .ok { labels := init ++ [last] ++ o.labels, fqdn := true } :=
+  parseName_host_relative init last o hl hlen
+
+example : parseName (dotted [[119, 119, 119], [99, 111, 109]]) none =
+    .ok { labels := [[119, 119, 119], [99, 111, 109]], fqdn := true } :=
+  name_absolute _ _ (by decide) (by decide) (by decide)
+
+/-- **TXT**: the RDATA of a TXT entry is its character strings, as they are (ASCII strings
+byte for byte). -/
+theorem txt_rdata (vals : List (List Nat)) (o : Option Name) (h : ∀ v ∈ vals, ∀ c ∈ v, c < 128) :
+    rdataFromTokens .txt vals o = .ok (.txt vals) := by
+  have hu : ∀ v : List Nat, (∀ c ∈ v, c < 128) → utf8 v = v := by
+    intro v hv
+    induction v with
+    | nil => rfl
+    | cons c v ih =>
+      have hc : c < 128 := hv c (by simp)
+      have := ih (fun c hc => hv c (by simp [hc]))
+      simp only [utf8, List.map_cons, List.flatten_cons] at this ⊢
+      rw [this]; simp [utf8Char, hc]
+  have : vals.map utf8 = vals := by
+    have : ∀ v ∈ vals, utf8 v = id v := fun v hv => hu v (h v hv)
+    rw [List.map_congr_left this, List.map_id]
+  simp [rdataFromTokens, this]
 
 end HickoryVerif.C20
